@@ -367,7 +367,8 @@ def check_decorator(ctx, chk):
                     derived = "{%s: %s}" % (show(k, 60), show(val, 200))
                     if len(loops) == 1 and isinstance(loops[0][2], App) and loops[0][2].fn == "enumerate" and loops[0][2].args[0] == Kx:
                         jpos, cel = loops[0][1].items
-                        want = App("take", (vt, jpos), [("axis", Const(class_axis))])
+                        # normal form of np.take(v, j, axis=-1) is v[..., j]; other axes stay `take`
+                        want = libmodel.getitem(ctx.ev, vt, Tup([Const(Ellipsis), jpos])) if class_axis == -1 else App("take", (vt, jpos), [("axis", Const(class_axis))])
                         ok = k == cel and same(val, want)
                 if ok:
                     chk.hold("R05.4", "%s:as_dict" % meth, "{class_j: take(result, j, axis=%d)}" % class_axis)
